@@ -101,6 +101,8 @@ def main():
     rec = {"validated_at_repo_head": subprocess.run("git -C /repo rev-parse --short HEAD", shell=True, capture_output=True, text=True).stdout.strip(),
            "ran": []}
     env = {"CARGO_TARGET_DIR": tgt}
+    denv = dict(env)
+    denv.update(meta.get("demo_env", {}))
     ok = True
     cur_patch = ""
     try:
@@ -115,7 +117,7 @@ def main():
                 shutil.copy(os.path.join(d, f), os.path.join(wt, rel))
         cmd = cargo_part(meta["demo_cmd"])
         # 2. without patch
-        rc, out, s = sh(cmd, wt, env=env)
+        rc, out, s = sh(cmd, wt, env=denv)
         rec["ran"].append({"what": "demo without patch (must pass)", "cmd": cmd, "rc": rc, "s": s, "tail": out[-600:]})
         if rc != 0:
             ok = False
@@ -140,7 +142,7 @@ def main():
             # the patch as it applies to the current HEAD (demo files are untracked, so not included)
             _, cur_patch, _ = sh("git diff", wt)
             cur_patch = subprocess.run("git diff", cwd=wt, shell=True, capture_output=True, text=True).stdout
-            rc, out, s = sh(cmd, wt, env=env)
+            rc, out, s = sh(cmd, wt, env=denv)
             rec["ran"].append({"what": "demo with patch (must fail)", "cmd": cmd, "rc": rc, "s": s, "tail": out[-600:]})
             if rc == 0:
                 ok = False
